@@ -773,6 +773,13 @@ class Interp:
                         base.d.update(a.d)
                 for k, v in kw.items():
                     base.d[k] = v
+                for k_ in e.keywords:  # d.update(x, **y)
+                    if k_.arg is None:
+                        y = self.ev(k_.value, env)
+                        if isinstance(y, DictV):
+                            base.d.update(y.d)
+                        else:
+                            raise Unsupported(f"dict.update(**{self.src(k_.value)}) with an unknown mapping")
                 return K(None)
         if isinstance(base, K) and isinstance(base.v, str):
             if attr == "join":
